@@ -327,7 +327,7 @@ def gen_d6_wait(r):
 
 
 def gen(r, tier):
-    n = {"quick": 2000, "search": 8000, "thorough": 40000}[tier]
+    n = {"quick": 2000, "search": 8000, "thorough": 16000}[tier]
     cases = []
     while len(cases) < n:
         x = r.random()
@@ -450,13 +450,23 @@ def wop_term(o):
     raise ValueError(t)
 
 
+def pack(row):
+    """one step's observations as one number: 1 followed by base-65536 digits (value + 4)"""
+    a = 1
+    for x in row:
+        if not -4 <= x < 65532:
+            raise ValueError("observation out of range")
+        a = a * 65536 + (x + 4)
+    return a
+
+
 def case_term(c, out):
     if not out.startswith("OK"):
         return None
     body = out[2:].strip()
     steps = [s.split() for s in body.split(";")] if body else []
     try:
-        outs = "[" + "; ".join("[" + "; ".join(cz(int(x)) for x in s) + "]" for s in steps) + "]"
+        outs = "[" + "; ".join(str(pack([int(x) for x in s])) for s in steps) + "]"
     except ValueError:
         return None
     kind, n1, n2, ops = c
